@@ -33,6 +33,14 @@ CHECKS = {
          "Month stepping with day clamp (u32 counts, operators), all seven date-field replacements and four time-field replacements on NaiveDate/NaiveDateTime over the full i32/u32 argument range, NaiveWeek bounds incl. the panicking forms, n-th weekday of a month by scanning, years_since on dates and zone-aware values, quarter, year_ce, num_days_in_month and Month::num_days are compared with the reference calendar.",
          "Trusted base: R-cal. For years outside the date range Month::num_days may answer None or the calendar-correct length (documentation and behaviour differ; the statement only asks for calendar agreement).",
          "DESIGN.md section 3 C08"),
+ "C09": ("proptest over values biased to the years/fractions/leap seconds the text form branches on + exhaustive offsets/weekdays/months (thorough: all 191 M dates), round trip print -> parse plus exact shape against reference renderings",
+         "Display and Debug of NaiveDate, NaiveTime, NaiveDateTime, DateTime<Utc>, DateTime<FixedOffset> (whole-minute offsets), FixedOffset, Weekday and Month are compared with reference renderings built from R-cal fields (sign rule, fewest of 0/3/6/9 fraction digits, second 60) and parsed back with str::parse to the identical value. Known finding F14 (NaiveDateTime Display form) is routed around and re-confirmed by a probe on every run.",
+         "Trusted base: reference renderer harness/src/refmodel/fmt.rs (30 lines) and R-cal. Domain = wall clocks inside the nominal date range (the property's quantifier); headroom wall clocks are an observation in DESIGN.md.",
+         "DESIGN.md section 3 C09"),
+ "C10": ("proptest: writer over (wall clock year 0-9999, whole-minute offset, 5 precisions, use_z); reader over grammar-derived strings with all documented latitude, field-level and character-level near-miss mutations, regex-shaped and arbitrary Unicode, differential against an independent hand-written RFC 3339 recognizer/evaluator",
+         "Writer: the output must equal a reference rendering, be accepted by the independent recognizer with identical fields (fraction truncated, Z only on request at offset 0) and parse back to the same instant and offset. Reader: parse_from_rfc3339(s).is_ok() must equal recognizer acceptance for every generated string (about a quarter accepted, three quarters rejected, most of them one edit or one out-of-range field away from a valid string), and accepted strings must evaluate to exactly the denoted value.",
+         "Trusted base: harness/src/refmodel/rfc3339.rs (90 lines, written from the ABNF and the documented latitude) and R-cal. Second 60 is accepted on any minute, as the documented reader does.",
+         "DESIGN.md section 3 C10"),
  "C17": ("proptest over stamps inside/outside the i64-nanosecond window, log-uniform/tie-making/invalid spans, offsets and digit counts, differential against floor/ceil arithmetic on i128 wall-clock stamps",
          "duration_trunc/round/round_up on NaiveDateTime and DateTime<FixedOffset> must return exactly floor/ceil/nearest-ties-up multiples of the span on the wall-clock stamp with the offset kept, be idempotent while the result stays inside the window, and report DurationExceedsLimit / TimestampExceedsLimit exactly for the three stated causes, never panicking (incl. headroom wall clocks); round_subsecs/trunc_subsecs on NaiveTime, NaiveDateTime and DateTime for all digit counts with carry. Leap-second operands: no panic, valid values, sub-second idempotence only.",
          "Trusted base: i128 div_euclid arithmetic (harness/src/props/c17.rs).",
